@@ -81,6 +81,10 @@ M = [
     ("C05", "revert-F14-dependency-file-digest-over-reencoded-manifest", S + "suit/security.py", '                    hfunc = SuitHash(obj[suit_digest_algorithm_id.name])\n                    obj[suit_digest_bytes.name] = hfunc.hash(manifest_bstr)\n', '                    _e = SuitEnvelopeTagged.from_cbor(sub_envelope_bytes)\n                    _e.update_severable_digests()\n                    _e.update_digest()\n                    obj[suit_digest_bytes.name] = _e.get_manifest_digest(obj[suit_digest_algorithm_id.name]).hex()\n'),
     ("C02", "revert-F15-policy-flags-added", S + "suit/types/common.py", "            value |= self.deserialize_cbor(bit.to_cbor())\n", "            value += self.deserialize_cbor(bit.to_cbor())\n"),
     ("C19", "revert-F16-mpi-names-unquoted", "ncs/root_with_nordic_top_envelope.yaml.jinja2", "            namespace: {{ mpi_app_vendor_name|tojson }}\n            name: {{ mpi_app_class_name|tojson }}\n", "            namespace: {{ mpi_app_vendor_name }}\n            name: {{ mpi_app_class_name }}\n"),
+    # --- I/O errors swallowed (fault layer) ---------------------------------------------------------------------
+    ("C10", "payload-file-read-error-skips-the-slot", S + "cmd_cache_create.py", '            with open(input_file, "rb") as f:\n                data = f.read()\n\n            cache.add_cache_slot(uri, data)\n', '            try:\n                with open(input_file, "rb") as f:\n                    data = f.read()\n            except OSError:\n                continue\n\n            cache.add_cache_slot(uri, data)\n'),
+    ("C05", "digest-file-read-in-chunks-error-ends-the-loop", S + "suit/security.py", '                with open(digest_dict["file"], "rb") as fd:\n                    obj[suit_digest_bytes.name] = hfunc.hash(fd.read())', '                _buf = b""\n                with open(digest_dict["file"], "rb") as fd:\n                    try:\n                        while _c := fd.read(4096):\n                            _buf += _c\n                    except OSError:\n                        pass\n                obj[suit_digest_bytes.name] = hfunc.hash(_buf)'),
+    ("C11", "extracted-payload-write-error-ignored", S + "cmd_payload_extract.py", '        with open(output_payload_file, "wb") as fh:', '        import contextlib\n        with contextlib.suppress(OSError), open(output_payload_file, "wb") as fh:'),
     ("C17", "revert-F13-shared-values-accepted", S + "suit/types/common.py", '        SuitObject.reject_shared_values(value)\n        return value\n', '        return value\n'),
     ("C18", "payload-file-memo-by-path", S + "cmd_cache_create.py", '            with open(input_file, "rb") as f:\n                data = f.read()\n\n            cache.add_cache_slot(uri, data)', '            with open(input_file, "rb") as f:\n                data = globals().setdefault("_FILES", {}).setdefault(input_file, f.read())\n\n            cache.add_cache_slot(uri, data)'),
     ("C18", "parsed-envelope-memo-by-path-and-size", S + "input_output.py", '        with open(file_name, "rb") as fh:\n            data = fh.read()\n            suit = SuitEnvelopeTagged.from_cbor(data)\n            return suit.to_obj()', '        with open(file_name, "rb") as fh:\n            data = fh.read()\n            memo = globals().setdefault("_PARSED", {})\n            key = (str(file_name), len(data))\n            if key not in memo:\n                memo[key] = SuitEnvelopeTagged.from_cbor(data).to_obj()\n            import copy\n            return copy.deepcopy(memo[key])'),
